@@ -2,6 +2,8 @@ package core
 
 import (
 	"fmt"
+	"os"
+	"path/filepath"
 	"regexp"
 	"strings"
 	"time"
@@ -43,6 +45,9 @@ var globalDeadline = time.Now().Add(time.Duration(vout.DeadlineS()) * time.Secon
 // exploreScenario runs the stateless DFS for one scenario and feeds res.
 // Returns the number of executions checked by this process.
 func exploreScenario(res *vout.Result, prop, scenario string, params map[string]interface{}, body sched.Body, bound int, fine bool, item *int) int {
+	if os.Getenv("VERIF_FREE") != "" {
+		return freeRuns(res, scenario, body, item)
+	}
 	e := &sched.Explorer{Body: body, Bound: bound, Fine: fine}
 	e.Stop = func() bool { return time.Now().After(globalDeadline) }
 	// work sharing: the whole scenario is one work item unless it is big
@@ -126,4 +131,76 @@ func exploreScenario(res *vout.Result, prop, scenario string, params map[string]
 	}
 	*item += 1000003 // decorrelate owners between scenarios
 	return e.Executions
+}
+
+// freeRuns is the separate race-detector pass (unit "race", built with -race,
+// no sync rewrite): the scenario's threads run as ordinary goroutines a few
+// times.  Under the cooperative scheduler every hand-off is a happens-before
+// edge, which blinds the detector; here nothing is ordered by the harness.
+// This pass decides nothing: verdicts of free runs are only counted, and data
+// races the detector logs are reported as notes (a data race in the
+// repository is not by itself a violation of any listed property).
+func freeRuns(res *vout.Result, scenario string, body sched.Body, item *int) int {
+	*item++
+	if !vout.Mine(*item) {
+		return 0
+	}
+	n := 4
+	if vout.Thorough() {
+		n = 20
+	}
+	for i := 0; i < n; i++ {
+		x := sched.RunFree(body)
+		res.Add("free_runs", 1)
+		if v, _ := x.Obs.(*Verdict); v != nil && v.Violation != "" {
+			res.Add("free_runs_with_a_verdict_violation", 1)
+			res.Distinct("free_run_violation_signatures", v.Sig)
+		}
+		for _, p := range x.Panics {
+			if p != nil {
+				res.Add("free_run_panics", 1)
+				res.Note("free run of %s panicked: %v", scenario, p)
+			}
+		}
+	}
+	res.Distinct("nontrivial", "free|"+scenario)
+	collectRaceLogs(res)
+	return n
+}
+
+var raceSeen = map[string]bool{}
+
+func collectRaceLogs(res *vout.Result) {
+	files, _ := filepath.Glob(filepath.Join(os.Getenv("VERIF_SCRATCH"), "race.*"))
+	for _, f := range files {
+		b, err := os.ReadFile(f)
+		if err != nil {
+			continue
+		}
+		for _, rep := range strings.Split(string(b), "==================") {
+			if !strings.Contains(rep, "WARNING: DATA RACE") {
+				continue
+			}
+			// key: the first two source locations of the report
+			var locs []string
+			for _, l := range strings.Split(rep, "\n") {
+				l = strings.TrimSpace(l)
+				if strings.HasPrefix(l, "/") && strings.Contains(l, ".go:") {
+					if i := strings.Index(l, " "); i > 0 {
+						l = l[:i]
+					}
+					locs = append(locs, strings.TrimPrefix(l, os.Getenv("VERIF_REPO")))
+					if len(locs) == 2 {
+						break
+					}
+				}
+			}
+			key := strings.Join(locs, " <-> ")
+			if !raceSeen[key] {
+				raceSeen[key] = true
+				res.Distinct("data_races_reported", key)
+				res.Note("race detector (free-running pass): %s", key)
+			}
+		}
+	}
 }
